@@ -494,25 +494,15 @@ func c09SupplierMap(c *Ctx, rule string) {
 							if !ok || !lk.CommaOk || isSupplier(lk.X) != al || lk.Index != x.Key {
 								continue
 							}
-							for _, r := range *lk.Referrers() {
-								ex, ok := r.(*ssa.Extract)
-								if !ok || ex.Index != 1 {
-									continue
-								}
-								for _, rr := range *ex.Referrers() {
-									iff, ok := rr.(*ssa.If)
-									if !ok {
-										continue
-									}
-									found, notFound := iff.Block().Succs[0], iff.Block().Succs[1]
-									if (notFound == b || notFound.Dominates(b)) && !reachableNoLoop(found, b, iff.Block()) {
-										// the found edge must be able to reach an error return that mentions the key
-										if errorReturnMentions(found, x.Key) {
-											guard = fmt.Sprintf("lookup in block %d; not-found edge -> block %d dominates the insert in block %d; found edge reaches an error naming the key", iff.Block().Index, notFound.Index, b.Index)
-										} else {
-											guard = ""
-											c.fail(rule, fnName(f2)+":duplicate-not-refused", L.pos(x.Pos()), "the found edge of the duplicate check does not lead to an error that names the type")
-										}
+							for _, t := range okTestsOf(lk) {
+								iff, found, notFound := t.iff, t.found, t.notFound
+								if (notFound == b || notFound.Dominates(b)) && !reachableNoLoop(found, b, iff.Block()) {
+									// the found edge must be able to reach an error return that mentions the key
+									if errorReturnMentions(found, x.Key) {
+										guard = fmt.Sprintf("lookup in block %d; not-found edge -> block %d dominates the insert in block %d; found edge reaches an error naming the key", iff.Block().Index, notFound.Index, b.Index)
+									} else {
+										guard = ""
+										c.fail(rule, fnName(f2)+":duplicate-not-refused", L.pos(x.Pos()), "the found edge of the duplicate check does not lead to an error that names the type")
 									}
 								}
 							}
@@ -583,16 +573,9 @@ func c09SupplierMap(c *Ctx, rule string) {
 			if !isStructKey {
 				continue
 			}
-			for _, r := range *lk.Referrers() {
-				if ex, ok := r.(*ssa.Extract); ok && ex.Index == 1 {
-					for _, rr := range *ex.Referrers() {
-						if iff, ok := rr.(*ssa.If); ok {
-							notFound := iff.Block().Succs[1]
-							if ok2, _ := allPathsReturnNonNil(notFound, map[*ssa.BasicBlock]bool{}); ok2 && errorReturnMentions(notFound, lk.Index) {
-								okOrphan = true
-							}
-						}
-					}
+			for _, t := range okTestsOf(lk) {
+				if ok2, _ := allPathsReturnNonNil(t.notFound, map[*ssa.BasicBlock]bool{}); ok2 && errorReturnMentions(t.notFound, lk.Index) {
+					okOrphan = true
 				}
 			}
 		}
